@@ -343,7 +343,7 @@ def js_agree(prog: Program) -> RuleResult:
     return r
 
 
-def registry_exact(prog: Program, r: RuleResult):
+def registry_exact(prog: Program, r: RuleResult, strong_tables: bool = True):
     """The registry maps exactly the registered type to its (de)serialiser: one key for both tables, lookups are table.get(<the given type>).
     Shared with C19: a lookup that also answers for subclasses or similar types returns a wrongly typed object instead of an error."""
     # registry: one key for both tables
@@ -380,7 +380,7 @@ def registry_exact(prog: Program, r: RuleResult):
     # the registry keeps what was registered: its tables hold the callables strongly. A weak-valued table forgets a lambda, a closure, a
     # bound method or a functools.partial as soon as the caller's reference is gone - under reference counting when register() returns
     weak = ("WeakValueDictionary", "WeakSet", "ref", "WeakMethod", "proxy")
-    for tname in sorted(stores):
+    for tname in sorted(stores) if strong_tables else []:
         fname = tname.split(".")[-1]
         fi = reg.attrs.get(fname)
         created = []
